@@ -2,10 +2,15 @@
     Proved for all inputs: the functions through which letter case could influence token
     types - keyword lookup after upper-casing, the macro keyword scanner, the statement
     look-ahead, the mnemonic-operator recogniser - return the same result on ASCII case variants.
-    The whole-lexer statement (same token types, channels, offsets and errors) is tested by the
-    check on random and extreme case variants of every input; it is not proved here. *)
+    [C16_macro_free_case_insensitive]: for macro-free texts (release profile) the whole-lexer statement
+    is proved - two texts that differ only in the case of ASCII letters yield the same token types,
+    channels, byte offsets and payloads (numeric values and literal-buffer ranges) and the same error
+    kinds and offsets (the reference reading is invariant under upper-casing every letter,
+    Proofs/RefLexCase.v, and the model is the reference reading, C11). For texts with macro triggers
+    the whole-lexer statement is tested by the check on random and extreme case variants of every input. *)
 From Coq Require Import NArith List.
-From SasLexer Require Import Gen.TokenType Gen.ErrorKind Gen.Channel Model.Base Model.Helpers Proofs.Tables Proofs.CaseInv.
+From SasLexer Require Import Gen.TokenType Gen.ErrorKind Gen.Channel Model.Base Model.Helpers Model.Core Model.Lexer3 Spec.RefLex Proofs.Tables Proofs.CaseInv
+     Proofs.OcBase Proofs.OcWhole Proofs.OcAll Proofs.MacroFree.
 Import ListNotations.
 Open Scope N_scope.
 
@@ -40,4 +45,24 @@ Example c16_example :
 Proof.
   split; [|vm_compute; reflexivity].
   repeat constructor; right; vm_compute; repeat split; reflexivity.
+Qed.
+
+(** the whole-lexer statement on macro-free texts *)
+Theorem C16_macro_free_case_insensitive : forall (msep : bool) (a b : list char),
+  case_variant a b -> macro_free (body_of a) = true ->
+  let ra := lex (mkCfg false msep) a in
+  let rb := lex (mkCfg false msep) b in
+  map tv0 (b_toks (lr_buffer ra)) = map tv0 (b_toks (lr_buffer rb)) /\
+  map ev0 (lr_errors ra) = map ev0 (lr_errors rb).
+Proof. exact mf_C16_macro_free_case_insensitive. Qed.
+Print Assumptions C16_macro_free_case_insensitive.
+
+(** the premises are satisfiable by texts whose tokenization involves case at every kind of site:
+    keyword, datalines word, literal suffix, hex digits, exponent marker, hex terminator *)
+Example c16_premise_example :
+  let a := [68;65;84;65;32;120;61;39;52;49;39;88;43;49;69;51;43;48;70;70;88;59;99;65;114;68;115;59;49;59]%N in
+  let b := map lc a in
+  case_variant a b /\ macro_free (body_of a) = true /\ a <> b.
+Proof.
+  cbv zeta. split; [apply case_variant_lc|]. split; [vm_compute; reflexivity|vm_compute; discriminate].
 Qed.
